@@ -64,6 +64,23 @@ Negotiable(T, vers, id, weak) ==
   IF vers = VTLS13 THEN id \in Ids(T.tls13)
   ELSE vers \in OldVersions /\ Supported(T, id, weak) /\ vers \in ValidVersions(Info(T, id))
 
+(***************************************************************************)
+(* The suite table is PROCESS-GLOBAL state (u_common.go                    *)
+(* utlsSupportedCipherSuites, read by cipher_suites.go cipherSuiteByID).   *)
+(* A process p = [weak |-> EnableWeakCiphers has been called].  What a     *)
+(* MakeConnWithCompleteHandshake / a handshake does at any moment depends  *)
+(* on the table AS IT IS THEN and on nothing else in the history of the    *)
+(* process (no lookup, failed or not, may freeze an earlier table):        *)
+(*   before EnableWeakCiphers the weak suites yield nil, after it they     *)
+(*   forge and interoperate; an unsupported id yields nil at any time.     *)
+(* EnableWeakCiphers called again changes nothing (in the code it appends  *)
+(* the same entries once more; lookups take the first match).              *)
+(***************************************************************************)
+ProcInit == [weak |-> FALSE]
+ProcEnableWeak(p) == [p EXCEPT !.weak = TRUE]
+ProcForgeIsNil(T, p, id) == ~Supported(T, id, p.weak)
+ProcNegotiable(T, p, vers, id) == Negotiable(T, vers, id, p.weak)
+
 \* The record-protection profile of a (version, suite): everything the record layer needs to know.
 Profile(T, vers, id) ==
   IF vers = VTLS13
